@@ -115,6 +115,8 @@ Definition pol_composite : policy := [
              ["$.fsm.GetState() == finitestate.StatusBooting"] [] [] [];
         mkHB "composite.Runner.boot" "composite.Runner.startRunnable"
              ["$.fsm.GetState() == finitestate.StatusBooting"] [] [] []]);
+  P "composite.Runner" "genCancel" (GuardedBy "composite.Runner.runnablesMu");   (* added by /repo f0fcb2b *)
+  P "composite.Runner" "genDone" (GuardedBy "composite.Runner.runnablesMu");     (* added by /repo f0fcb2b *)
   P "composite.Runner" "logger" CtorOnly
 ].
 
